@@ -166,6 +166,7 @@ theorem main (fuel : Nat) :
                 (hs2.frame.trans h1.2.1) (ihO k fr1 { sh' with returned := false } h1.1 rfl)
         · exact errPost L sh _ hinv hret
       | ret => exact ⟨hinv, StrFrame.refl _, fun _ => rfl⟩
+      | abort => exact ⟨hinv, StrFrame.refl _, by simp, by simp [catchable]⟩
       | sub kind body k =>
         cases kind with
         | inline =>
@@ -231,6 +232,7 @@ theorem main (fuel : Nat) :
             | fuel => exact ⟨h1.1, h1.2.1, by simp, by simp [catchable]⟩
             | ghost => exact absurd rfl h1.2.2.1
             | guard => exact ⟨h1.1, h1.2.1, by simp, by simp [catchable]⟩
+            | abort => exact ⟨h1.1, h1.2.1, by simp, by simp [catchable]⟩
       | loop body k =>
         simp only [runOp]
         split
